@@ -18,9 +18,11 @@ RULE = (
     "geometry/parameter alphabet radius {0.5,2} x L {0.5,2.5} lambda x r_a {100,1000} x g {1e-4,1e-3} (16 cables); ladders ncomp = 4*2^k "
     "(k=0..4) for the steady-state sealed-cable Green's function (source at the first compartment centre, every compartment centre compared) "
     "on every backend; ladders dt = 0.5/2^k for RC relaxation with bwd_euler/fwd_euler (order 1) and crank_nicolson (order 2); steady state "
-    "under constant current I/(gA) for the unit constants; distinct = (cable, backend) ladders with decreasing error"
+    "under constant current I/(gA) for the unit constants; ladders dt = 0.2/2^k for the relaxation of a voltage profile on 4-compartment "
+    "cables (one branch / two branches, c_m 1 / 2.5) against the exact solution of the semi-discrete cable, bwd_euler and crank_nicolson on every "
+    "backend; distinct = (cable, backend) ladders with decreasing error"
 )
-REQUIRED_COVER = ["branched_cable_cm_ne_1", "space_order_2", "time_order_1_bwd", "time_order_1_fwd", "time_order_2_cn", "unit_constants", "long_cable", "short_cable",
+REQUIRED_COVER = ["time_order_on_coupled_cable_cn", "time_order_on_coupled_cable_bwd", "branched_cable_cm_ne_1", "space_order_2", "time_order_1_bwd", "time_order_1_fwd", "time_order_2_cn", "unit_constants", "long_cable", "short_cable",
                   "backend:jaxley.stone", "backend:jaxley.thomas", "backend:jax.sparse"]
 ASSUMPTIONS = [
     "a finite refinement ladder is evidence of the limit, not the limit; observed orders must lie within +-0.3 (space) / +-0.1 (time) of the nominal order on the last two rungs "
@@ -126,6 +128,43 @@ def rc_ladder(scheme, backend, r, Lc, g, cm):
     return errs
 
 
+def cable_time_ladder(scheme, backend, geom, nbranches, cm):
+    """Relaxation of a non-uniform initial voltage profile on a 4-compartment cable (one branch, or a 2-branch cell): the error
+    against the exact solution of the semi-discrete cable  C dv/dt = -(S + g) v + g E  (eigen-decomposition, numpy; S from the dense SI
+    assembly of vf.refphys) must shrink at the scheme's order in dt.  Exercises the time stepping WITH axial coupling."""
+    import jaxley as jx
+    from vf import refphys
+
+    r, Lrel, ra, g = geom
+    lam = _lambda_um(r, ra, g)
+    L = Lrel * lam
+    n = 4
+    v0 = np.asarray([-50.0, -58.0, -66.0, -70.0])
+    if nbranches == 1:
+        parents, ncomps = [-1], [n]
+    else:
+        parents, ncomps = [-1, 0], [2, 2]
+    ones = np.ones(n)
+    C, G, _ = refphys.assemble(parents, ncomps, r * ones, (L / n) * ones, ra * ones, cm * ones)
+    S = refphys.reduce_branchpoints(G, n)
+    gl = g * refphys.areas_cm2(r * ones, (L / n) * ones) * 1e6  # uS
+    Cs = np.sqrt(C[:n])
+    Msym = (S + np.diag(gl)) / Cs[:, None] / Cs[None, :]
+    w, Q = np.linalg.eigh(Msym)
+    t_end = 1.6
+    exact = E_LEAK + (Q @ (np.exp(-w * t_end) * (Q.T @ (Cs * (v0 - E_LEAK))))) / Cs
+    errs = []
+    for k in range(5):
+        dt = 0.2 / 2**k
+        nsteps = int(round(t_end / dt))
+        m = _cable(n, r, L, ra, g, cm) if nbranches == 1 else _cable_as_cell(2, 2, r, L, ra, g, cm)
+        m.set("v", v0)
+        m.record("v", verbose=False)
+        out = np.asarray(jx.integrate(m, t_max=(nsteps - 1) * dt + dt / 2, delta_t=dt, solver=scheme, voltage_solver=backend))
+        errs.append(float(np.max(np.abs(out[:, nsteps] - exact))))
+    return errs
+
+
 def orders(errs):
     return [float(np.log2(errs[i] / errs[i + 1])) if errs[i + 1] > 0 else float("inf") for i in range(len(errs) - 1)]
 
@@ -183,6 +222,26 @@ def work(item):
         else:
             viol("time_convergence", f"errors {errs} orders {od}", scheme=scheme)
         out["sample"] = dict(item, errors=errs, orders=od)
+    elif item["part"] == "cable_time":
+        scheme, backend = item["scheme"], item["backend"]
+        nb, cm = int(item["nbranches"]), float(item["cm"])
+        try:
+            errs = cable_time_ladder(scheme, backend, tuple(item["geom"]), nb, cm)
+        except Exception as e:
+            viol("raised", f"{type(e).__name__}: {str(e)[:200]}", part="cable_time")
+            return out
+        out["evals"] += 5
+        od = orders(errs)
+        nominal = 2.0 if scheme == "crank_nicolson" else 1.0
+        ok = all(abs(o - nominal) <= 0.15 for o in od[-2:]) and all(abs(o - nominal) <= 0.35 for o in od)
+        if ok:
+            out["cover"].append("time_order_on_coupled_cable_" + ("cn" if scheme == "crank_nicolson" else "bwd"))
+            out["cover"].append(f"backend:{backend}")
+            out["digests"].append(digest(["cable_time", scheme, backend, item["geom"], nb, cm]))
+        else:
+            viol("time_convergence_on_cable", f"errors {errs} orders {od} (nbranches {nb}, cm {cm})", scheme=scheme,
+                 backend_family="sparse" if backend == "jax.sparse" else "jaxley")
+        out["sample"] = dict(item, errors=errs, orders=od)
     else:  # units
         r, Lc, g = item["params"]
         for backend in BACKENDS:
@@ -227,6 +286,15 @@ def explore(ctx):
                 items.append({"part": "time", "scheme": scheme, "backend": b, "params": list(p)})
     for p in itertools.product((0.5, 2.0), (5.0, 40.0), (1e-4, 1e-3)):
         items.append({"part": "units", "params": list(p)})
+    # time stepping with axial coupling: relaxation of a voltage profile on 4-compartment cables, every scheme x backend
+    ct_geoms = [(2.0, 1.0, 100.0, 1e-4)] if ctx.tier == "quick" else [(2.0, 1.0, 100.0, 1e-4), (0.5, 2.5, 1000.0, 1e-3)]
+    for gm in ct_geoms:
+        for scheme in ("bwd_euler", "crank_nicolson"):
+            for b in BACKENDS:
+                for nb, cm in ((1, 1.0), (2, 2.5)):
+                    if ctx.tier == "quick" and nb == 2 and b == "jaxley.thomas":
+                        continue
+                    items.append({"part": "cable_time", "geom": list(gm), "scheme": scheme, "backend": b, "nbranches": nb, "cm": cm})
     ctx.note("cables", len(geoms))
     ctx.note("ladder", "ncomp 4..64, dt 0.5..0.03125")
     ctx.map("work", items)
